@@ -50,7 +50,8 @@ Proof. exact value_all. Qed.
    crystal's index along a direction for this beam's wavelength and polarization).  IF the optimiser returns th in [0, pi/2] with
    residual <= r for e = |v| deg (e <= M < pi/2), THEN the stored internal angle is th, it satisfies Snell's law within r,
    |sin e - n(th) sin th| <= r, the view shows th in degrees (4 decimals), the azimuth is untouched, and the external angle read back
-   through Snell is within r / cos M of e.  PARTIAL in the same sense as C13: convergence of the simplex is checked per input. *)
+   through Snell is within r / cos M of e.  PARTIAL in the same sense as C13: convergence of the simplex is checked per input.
+   NOTE e = |v|: for v < 0 the code stores the angle of +|v| (finding, Findings/C18_external_sign.v: the sign of the request is lost). *)
 Theorem C18_external_angle_partial : forall nm index pol csign p b, In (p, (SBeamThetaExternal b, UDeg)) spec_table ->
   exists f, get_setter (snell_of nm index pol) csign p = Some f /\ forall s v r M,
     let bm := get_beam b s in
@@ -127,6 +128,20 @@ Proof.
          (fun i j d Hi Hj => values_nth base s1 s2 jsa2 nrm x0 x1 nx y0 y1 ny i j d Hi Hj)).
 Qed.
 
+(* the same for the setters the code actually installs: for any two documented paths try_new succeeds, setup j * nx + i is "slot 1 := value
+   i of the first axis in path 1's unit, THEN slot 2 := value j of the second axis", and the swept spectrum value is that setup's *)
+Theorem C18_sweep_paths : forall snell csign p1 sl1 u1 p2 sl2 u2,
+  In (p1, (sl1, u1)) spec_table -> In (p2, (sl2, u2)) spec_table ->
+  forall base, exists s1 s2,
+    spdc_iter_try_new snell csign base p1 p2 = Some (base, (s1, s2)) /\
+    forall jsa2 nrm x0 x1 nx y0 y1 ny i j d, (i < nx)%nat -> (j < ny)%nat ->
+      nth (j * nx + i) (spdc_iter_into_iter base s1 s2 x0 x1 nx y0 y1 ny) base =
+        ideal_set snell csign sl2 (si_of u2 (axis_value y0 y1 ny j)) (ideal_set snell csign sl1 (si_of u1 (axis_value x0 x1 nx i)) base) /\
+      nth (j * nx + i) (spdc_iter_jsi_values jsa2 nrm base s1 s2 x0 x1 nx y0 y1 ny) d =
+        centre_value jsa2 nrm (ideal_set snell csign sl2 (si_of u2 (axis_value y0 y1 ny j))
+                                 (ideal_set snell csign sl1 (si_of u1 (axis_value x0 x1 nx i)) base)).
+Proof. exact sweep_paths. Qed.
+
 (* normalised sweep (generated SPDCIter::jsi_values_normalized; opt_of = SPDC::try_as_optimum as an oracle): it panics (None) iff the
    base cannot be optimised; otherwise every value is the raw swept value divided by the reference at the optimised BASE's centre *)
 Theorem C18_values_normalized : forall base setter1 setter2 jsa2 nrm opt_of x0 x1 nx y0 y1 ny,
@@ -194,5 +209,6 @@ Print Assumptions C18_try_new.
 Print Assumptions C18_order.
 Print Assumptions C18_grid.
 Print Assumptions C18_values.
+Print Assumptions C18_sweep_paths.
 Print Assumptions C18_values_normalized.
 Print Assumptions C18_values_are_C20_model.
